@@ -1,6 +1,7 @@
 """Run TLC / parse its output.  All scratch goes to a per-run temp dir that is removed."""
 import json
 import os
+import sys
 import re
 import shutil
 import subprocess
@@ -153,11 +154,19 @@ def run(module, cfg, workdir=None, workers=1, env=None, timeout=1800, extra=(), 
         if env:
             e.update(env)
         t0 = time.time()
-        try:
-            p = subprocess.run(cmd, cwd=scratch, env=e, stdout=subprocess.PIPE, stderr=subprocess.STDOUT,
-                               timeout=timeout, universal_newlines=True, preexec_fn=_die_with_parent)
-        except subprocess.TimeoutExpired:
-            raise TLCError("TLC timed out after %ss: %s" % (timeout, module))
+        for attempt in range(3):
+            try:
+                p = subprocess.run(cmd, cwd=scratch, env=e, stdout=subprocess.PIPE, stderr=subprocess.STDOUT,
+                                   timeout=timeout, universal_newlines=True, preexec_fn=_die_with_parent)
+            except subprocess.TimeoutExpired:
+                raise TLCError("TLC timed out after %ss: %s" % (timeout, module))
+            # the JVM itself died (killed, out of memory, could not reserve its heap on a loaded machine): that says
+            # nothing about the specification; start it again after a pause.  TLC's own exit codes are >= 10 (or 0).
+            if not (p.returncode < 0 or p.returncode in (1, 2, 3, 134, 137, 143)):
+                break
+            sys.stderr.write("tlc: JVM exit %s on %s (attempt %d), restarting\n" % (p.returncode, module, attempt + 1))
+            shutil.rmtree(os.path.join(scratch, "states"), ignore_errors=True)
+            time.sleep(10 * (attempt + 1))
         return TLCResult(p.returncode, p.stdout, time.time() - t0)
     finally:
         shutil.rmtree(scratch, ignore_errors=True)
